@@ -125,9 +125,12 @@ def exhaustive_size_histories(lim, naming, cap, alphabet, maxlen):
 CLEANUPS = ["l0", "l1", "l2", "l3", "g0", "g1", "g2", "b0.1", "b1.1", "b2.1", "b1.0", "b0.0"]
 
 
-def gen_runs(rng, tier, cleanups=("n",), namings=None, sfxs=(b"log",), bg=False, preseed=0.0, max_runs=3, crits=None, vary_append=True):
-    """several runs of a writer on one file specification: B .. S SN B .. S SN"""
+def gen_runs(rng, tier, cleanups=("n",), namings=None, sfxs=(b"log",), bg=False, preseed=0.0, max_runs=3, crits=None, vary_append=True, offs=(0,), utc_p=0.0):
+    """several runs of a writer on one file specification: B .. S SN B .. S SN
+    (offs: zone offsets to choose from - the check must then set TZ_BY_OFFSET; utc_p: share of histories with use_utc)"""
     naming = rng.choice(namings or NAMINGS)
+    off = rng.choice(offs)
+    utc = rng.random() < utc_p
     lim = rng.choice([0, 4, 10, 25])
     crit = rng.choice(crits or ["s%d" % lim, "s%d" % lim, "as", "xm%d" % lim])
     cleanup = rng.choice(cleanups)
@@ -138,7 +141,7 @@ def gen_runs(rng, tier, cleanups=("n",), namings=None, sfxs=(b"log",), bg=False,
     ops = []
     t0 = T0 - rng.choice([0, 0, 1, 30, 86000])
     rec_no = 0
-    cfg0 = Cfg(base=base, disc=disc, sfx=sfx, crit=crit, naming=naming, cleanup=cleanup)
+    cfg0 = Cfg(base=base, disc=disc, sfx=sfx, crit=crit, naming=naming, cleanup=cleanup, utc=utc)
     if rng.random() < preseed:
         # a directory as an earlier run (or a crash) may have left it
         kind = rng.choice(["gz-only", "gap", "no-current", "plain"])
@@ -146,7 +149,7 @@ def gen_runs(rng, tier, cleanups=("n",), namings=None, sfxs=(b"log",), bg=False,
         if naming in ("ts", "tsd"):
             # restart siblings of the first time stamp of this history, around the point where the counter outgrows four digits
             import datetime
-            infix = datetime.datetime.utcfromtimestamp(t0).strftime("r%Y-%m-%d_%H-%M-%S").encode()
+            infix = datetime.datetime.utcfromtimestamp(t0 + (0 if utc else off)).strftime("r%Y-%m-%d_%H-%M-%S").encode()
             for cnt in rng.choice([[9998, 9999], [9999, 10000], [9, 10000, 10001], [99999], [0]]):
                 nm = cfg0.name(infix + b".restart-%04d" % cnt)
                 ops.append("XC:%s:0:%s" % (hx(nm), hx(b"old%d\n" % cnt)))
@@ -165,7 +168,7 @@ def gen_runs(rng, tier, cleanups=("n",), namings=None, sfxs=(b"log",), bg=False,
         if ops:
             ops.append("SN")
     for run in range(rng.randint(1, max_runs)):
-        cfg = Cfg(base=base, disc=disc, sfx=sfx, crit=crit, naming=naming, cleanup=cleanup,
+        cfg = Cfg(base=base, disc=disc, sfx=sfx, crit=crit, naming=naming, cleanup=cleanup, utc=utc,
                   append=(rng.random() < 0.5) if vary_append else append0, cap=rng.choice([None, None, 6, 32]),
                   # (with a suffix that sorts after "restart-" the cleanup can hit the file being written - known finding
                   #  S1 -, which races with the writing thread when it runs in the background: keep that deterministic)
@@ -185,7 +188,7 @@ def gen_runs(rng, tier, cleanups=("n",), namings=None, sfxs=(b"log",), bg=False,
         ops += ["S", "SN"]
         if rng.random() < 0.5:
             ops.append("K:%d" % rng.choice([1, 1, 5, 3600]))
-    return "flw %d 0 ; %s" % (t0, " ".join(ops))
+    return "flw %d %d ; %s" % (t0, off, " ".join(ops))
 
 
 def same_second_rotations(toks):
